@@ -8,6 +8,7 @@ import pathlib
 from sa.bitabs import ABits, ACond, AInt, F, Interp, OB, explore
 from sa.model import AnalysisError, EnumMember, Rec, Unfoldable
 from sa.wiring import Misbehaves, single_path
+from sa.bitabs import PartialRaise
 
 SPEC = pathlib.Path(__file__).resolve().parent.parent / "spec" / "crc.json"
 QUICK_LENGTHS = [1, 2, 3, 5, 7, 8, 9, 10, 13, 15, 16, 17, 23, 24, 25, 31, 32, 33, 40, 47, 48, 49, 64, 80, 87, 96]
@@ -281,8 +282,13 @@ def run(ctx):
             for st, (kind, v) in res:
                 I.st = st
                 if kind == "abort":
+                    if isinstance(v, PartialRaise):
+                        # exact: some values of the (full-width) received check value make check() raise instead of answering
+                        bad.append(f"{v} — a received value of the field's own width is refused instead of compared")
+                        continue
                     raise AnalysisError(f"{key}: {v}")
                 if kind == "raise":
+                    bad.append(f"raises {v.exc} at {v.msg} on path {st.labels[-2:]} — a received value of the field's own width is refused instead of compared")
                     continue
                 want, got, given = v
                 w = max(len(given.bits), 1)
